@@ -156,10 +156,12 @@ func Load(repo string, overlay map[string]string, patterns ...string) (*Program,
 		ov[filepath.Join(repo, k)] = []byte(v)
 	}
 	cfg := &packages.Config{
-		Mode:    packages.LoadAllSyntax,
-		Dir:     repo,
-		Env:     append(os.Environ(), "GOFLAGS=-mod=mod", "GOPROXY=off", "GOTOOLCHAIN=auto", "CGO_ENABLED=0"),
-		Overlay: ov,
+		Mode: packages.LoadAllSyntax,
+		Dir:  repo,
+		Env:  append(os.Environ(), "GOFLAGS=-mod=mod", "GOPROXY=off", "GOTOOLCHAIN=auto", "CGO_ENABLED=0"),
+		// math/big's assembly kernels have pure-Go twins behind this tag
+		BuildFlags: []string{"-tags=math_big_pure_go"},
+		Overlay:    ov,
 	}
 	pats := append([]string{"./src/zzverif/rt"}, patterns...)
 	pkgs, err := packages.Load(cfg, pats...)
@@ -180,6 +182,7 @@ func Load(repo string, overlay map[string]string, patterns ...string) (*Program,
 	}
 	prog, _ := ssautil.AllPackages(pkgs, ssa.InstantiateGenerics|ssa.SanityCheckFunctions&0)
 	prog.Build()
+	lateLoads(prog)
 	p := &Program{Prog: prog, Pkgs: pkgs, Fset: prog.Fset, Sizes: &types.StdSizes{WordSize: 8, MaxAlign: 8}, byPath: map[string]*ssa.Package{}}
 	for _, sp := range prog.AllPackages() {
 		p.byPath[sp.Pkg.Path()] = sp
@@ -205,8 +208,9 @@ type Options struct {
 	Deadline  time.Duration
 	Trace     bool
 	KeepPaths int
-	Summarize []string // functions (ssa.Function.String()) summarised instead of inlined
-	StopAfter int      // stop exploring once this many distinct violations are known (0 = explore everything)
+	Summarize []string               // functions (ssa.Function.String()) summarised instead of inlined
+	StopAfter int                    // stop exploring once this many distinct violations are known (0 = explore everything)
+	KeyFn     func(Violation) string // identity of a violation for de-duplication (default: kind and message)
 }
 
 // newInterp creates a fresh interpreter state (globals zeroed, no package initialised).
@@ -426,8 +430,12 @@ func (p *Program) Explore(pkgPath, name string, opts Options) *Stats {
 					st.MaxDepth = len(x.taken)
 				}
 				for _, v := range x.Viol {
-					if !seenViol[v.Key()] {
-						seenViol[v.Key()] = true
+					vk := v.Key()
+					if opts.KeyFn != nil {
+						vk = opts.KeyFn(v)
+					}
+					if !seenViol[vk] {
+						seenViol[vk] = true
 						st.Violations = append(st.Violations, v)
 					}
 				}
@@ -466,4 +474,63 @@ func (p *Program) Explore(pkgPath, name string, opts Options) *Stats {
 func (x *Exec) modelQuiet() map[string]uint64 {
 	defer func() { recover() }()
 	return x.model()
+}
+
+// lateLoads: Go leaves open whether a variable operand of a call (typically the receiver field in
+// c.cbb.NewStore(c.f(), x)) is read before or after the calls among the other operands. The gc
+// compiler reads it afterwards, go/ssa before - and the repository's IR generator relies on gc's
+// choice (c.f() moves c.cbb to a new block). To interpret the code as the shipped binary runs it,
+// a load that only feeds one call is moved behind the calls that precede that call in its block.
+// Applied to the code generator's package only.
+func lateLoads(prog *ssa.Program) {
+	for fn := range ssautil.AllFunctions(prog) {
+		if fn.Pkg == nil || fn.Pkg.Pkg.Path() != ModPath+"/src/compiler" {
+			continue
+		}
+		for _, b := range fn.Blocks {
+			for ci := 0; ci < len(b.Instrs); ci++ {
+				call, ok := b.Instrs[ci].(ssa.CallInstruction)
+				if !ok {
+					continue
+				}
+				var ops []ssa.Value
+				common := call.Common()
+				ops = append(ops, common.Value)
+				ops = append(ops, common.Args...)
+				for _, op := range ops {
+					ld, ok := op.(*ssa.UnOp)
+					if !ok || ld.Op != token.MUL || ld.Block() != b {
+						continue
+					}
+					if _, isField := ld.X.(*ssa.FieldAddr); !isField {
+						continue
+					}
+					if refs := ld.Referrers(); refs == nil || len(*refs) != 1 {
+						continue
+					}
+					li := -1
+					for k := 0; k < ci; k++ {
+						if b.Instrs[k] == ssa.Instruction(ld) {
+							li = k
+						}
+					}
+					if li < 0 {
+						continue
+					}
+					between := false
+					for k := li + 1; k < ci; k++ {
+						if _, isCall := b.Instrs[k].(ssa.CallInstruction); isCall {
+							between = true
+						}
+					}
+					if !between {
+						continue
+					}
+					// move the load to just before the call
+					copy(b.Instrs[li:ci-1], b.Instrs[li+1:ci])
+					b.Instrs[ci-1] = ld
+				}
+			}
+		}
+	}
 }
